@@ -93,11 +93,11 @@ def _one(nodes, what):
 def generate(repo):
     mod = ast.parse(open(os.path.join(repo, 'lentil/plane.py')).read())
     fmod = ast.parse(open(os.path.join(repo, 'lentil/field.py')).read())
-    hmod = open(os.path.join(repo, 'lentil/helper.py')).read()
+    hmod = ast.unparse(ast.parse(open(os.path.join(repo, 'lentil/helper.py')).read()))    # normalised: formatting and comments do not matter
     out = []
     tr = FnTranslator(None, _method(mod, 'Plane', 'fit_tilt'), {'params': []}, {}, {})
     # ---------------- helper.mesh: index minus floor(n/2) (textual guard; the model uses `cc`)
-    if 'np.arange(nr) - np.floor(nr/2.0) - shift[0]' not in hmod or 'np.arange(nc) - np.floor(nc/2.0) - shift[1]' not in hmod:
+    if 'np.arange(nr) - np.floor(nr / 2.0) - shift[0]' not in hmod or 'np.arange(nc) - np.floor(nc / 2.0) - shift[1]' not in hmod:
         raise Refuse('helper.mesh: coordinates are no longer arange(n) - floor(n/2) - shift')
     # ---------------- ptt_vector
     pv = _method(mod, 'Plane', 'ptt_vector')
